@@ -43,6 +43,11 @@ CHECKS = {
    note="Trusted: Coq kernel, extraction, driver, harness; per-doctest verdicts are by construction (decided by C02/C03); the zero-argument-function fallback, KeyboardInterrupt handling and 'dump' are outside this check; subprocess exit status only in the thorough tier unless a disagreement triggers the search.",
    technique="Coq proof (list induction: counting, positions, filter uniqueness) + differential correspondence on generated modules + arithmetic-identity search",
    design="5/C10"),
+ 'C15': dict(
+   text="Coq theorems over two verdict functions defined on ONE run-loop model: C15_same_verdict (for every doctest - every list of parts - and every behaviour of its parts with a doctest frame and no SystemExit/KeyboardInterrupt, run(on_error='raise', mode pytest) followed by the all-skipped pytest.skip() and the anything_ran() test gives the same verdict as run(on_error='return') + _post_run; proved by a simulation between the two runs plus loop invariants), C15_same_report (force-disabled: skipped vs omitted is the only difference), C15_anything_ran_iff_not_all_skipped (the two nothing-ran tests coincide), C15_native_exit. Tie to the code: in process, the native verdict and an emulation of XDoctestItem.runtest made of the real is_disabled/run/anything_ran calls vs the extracted model's two verdict functions on every by-construction kind x default state and 2500/40000 seeded fragment doctests; both real front ends as subprocesses (pytest --xdoctest -v, python -m xdoctest <mod> all) on 36/600 generated modules x style {auto, google, freeform} x options: identifiers, per-identifier outcomes and exit codes compared.",
+   note="Trusted: Coq kernel, extraction, driver, harness; pytest's collection/reporting/exit status and the option plumbing (_populate_from_cli) are outside the model (compared through the subprocesses only); a doctest starting with '# pytest.skip' is disabled under pytest only and excluded by the statement's hypothesis.",
+   technique="Coq proof (simulation between the on_error=raise and on_error=return runs + invariants by induction over parts) + differential correspondence in process + front-end-vs-front-end subprocess comparison",
+   design="5/C15"),
 }
 
 NOT_APPLICABLE = {}
